@@ -17,6 +17,7 @@ import (
 	"os"
 	"time"
 
+	_ "github.com/wader/fq/format/all"
 	"github.com/wader/fq/internal/aheadreadseeker"
 	"github.com/wader/fq/internal/bitiox"
 	"github.com/wader/fq/internal/ctxreadseeker"
@@ -673,6 +674,66 @@ func main() {
 			kit.Unmarshal(raw, &j)
 			return runCase(j.Case, rand.New(rand.NewSource(j.Seed)), tmp)
 		})
+	case "stack":
+		// stack <n> <events>: the stack fq puts under an opened file (ctx -> progress -> read-ahead 512 KiB -> bit reader),
+		// through the real command line: byte windows of a 1.5 MiB file in an order that hits, misses and straddles cache blocks.
+		n := kit.Atoi(os.Args[2])
+		out := kit.NewOut(os.Args[3])
+		rng := rand.New(rand.NewSource(seed))
+		size := 3*512*1024 + 777
+		data := make([]byte, size)
+		rng.Read(data)
+		type win struct{ A, B int }
+		var ws []win
+		edges := []int{0, 512 * 1024, 1024 * 1024, 3 * 512 * 1024, size}
+		for i := 0; i < n; i++ {
+			var a int
+			switch rng.Intn(4) {
+			case 0:
+				a = edges[rng.Intn(len(edges))] - rng.Intn(40)
+			case 1:
+				a = size - rng.Intn(100)
+			default:
+				a = rng.Intn(size)
+			}
+			if a < 0 {
+				a = 0
+			}
+			b := a + rng.Intn(48)
+			if b > size {
+				b = size
+			}
+			ws = append(ws, win{a, b})
+		}
+		arg, _ := json.Marshal(ws)
+		res := kit.RunFQ([]string{"-d", "bytes", "-c", "--argjson", "ws", string(arg),
+			". as $f | $ws[] | . as $w | [$w.A, $w.B, ($f | tobytes[$w.A:$w.B] | explode)]", "big.bin"}, map[string][]byte{"big.bin": data}, nil)
+		dec := json.NewDecoder(bytes.NewReader(res.Stdout))
+		k := 0
+		for {
+			var o []json.RawMessage
+			if err := dec.Decode(&o); err != nil {
+				break
+			}
+			var got []int
+			json.Unmarshal(o[2], &got)
+			if got == nil {
+				got = []int{}
+			}
+			w := ws[k]
+			gb := make([]byte, len(got))
+			for i, x := range got {
+				gb[i] = byte(x)
+			}
+			out.Emit(map[string]any{"kind": "window", "a": w.A, "b": w.B, "want": bitsOf(data[w.A:w.B], int64(w.B-w.A)*8),
+				"got": bitsOf(gb, int64(len(gb))*8), "panic": "", "term": Term{T: "openfile"}, "leaves": map[string][]int{}, "ops": []Op{},
+				"chunks": [][]int{}, "outbits": []int{}})
+			k++
+		}
+		if k != len(ws) {
+			kit.Fatalf("stack: %d results for %d windows: %s", k, len(ws), res.Stderr)
+		}
+		out.Close()
 	case "write":
 		n := kit.Atoi(os.Args[2])
 		out := kit.NewOut(os.Args[3])
